@@ -52,6 +52,7 @@ N_VARIANTS = 4
 
 OBLIGATIONS = {
     "network_with_a_past": "a network that had been indexed and matched on elsewhere, then moved in place and indexed again",
+    "call_after_a_refused_call": "mapOnNetwork judged right after a call on the same network that was refused (gps_noise = 0)",
     "second_track_of_a_collection": "the track was also matched as the second track of a TrackCollection (after a different track) in one call",
     "edge_with_repeated_vertex": "a network whose edge geometries carry the same vertex twice in a row was matched",
     "unmatched_observation": "an observation is flagged unmatched",
@@ -491,6 +492,15 @@ def check_map(W, radius_l, noise, seq, ctx, history=True):
             bad = _rows_failure(W, rows3, obs_pts, radius)
             if bad:
                 ctx.violation("mapOnNetwork/collection/second-track/" + bad[0], case, bad[1])
+        # ---- and right after a call that was refused: another track on the same network with gps_noise = 0 (outside the
+        # statement's noise parameters: the observation model divides by it) ------------------------------------------------
+        env.reset_globals()
+        guard(_call, _mk_track(v, other), W.net, radius * 2, 0)
+        st4, rows4 = guard(_call, _mk_track(v, seq), W.net, radius, noise)
+        ctx.oblige("call_after_a_refused_call")
+        if st4 != "ok" or repr(rows4) != repr(rows):
+            ctx.violation("mapOnNetwork/result-depends-on-a-call-that-was-refused", case,
+                          {"fresh": rows, "after_a_refused_call": rows4 if st4 == "ok" else [st4, rows4]})
     env.reset_globals()
 
 
